@@ -119,6 +119,105 @@ def task_links_validated(ctx, rule):
         ctx.loc(sv))
 
 
+DICT_ONLY_METHODS = ('items', 'keys', 'values', 'get', 'update', 'setdefault',
+                     'pop')
+
+
+def union_typed_fields(ctx, rule):
+    """A spec property whose schema allows a mapping *or* a string (an
+    expression evaluated at run time) is stored in one attribute.  Every
+    operation that only a mapping supports (merging parameters into it,
+    iterating its items, storing a key) must be reached with a mapping
+    only; with the string form it raises TypeError / AttributeError while
+    the definition is being validated (F26)."""
+    from mstatic.rules import dt
+    from mstatic.statedom import FDICT
+    prog = ctx.prog
+    n_fields = n_ops = 0
+    for cq, cnode in sorted(prog.classes.items()):
+        if not prog.class_module[cq].startswith(LANG + '.v2'):
+            continue
+        _k, sch = prog.class_attr(cq, '_schema')
+        if not isinstance(sch, ast.Dict) or _k != cq:
+            continue
+        props = None
+        for a, b in zip(sch.keys, sch.values):
+            if isinstance(a, ast.Constant) and a.value == 'properties' and \
+                    isinstance(b, ast.Dict):
+                props = b
+        if props is None:
+            continue
+        union = set()
+        for a, b in zip(props.keys, props.values):
+            if not (isinstance(a, ast.Constant) and isinstance(b, ast.Dict)):
+                continue
+            for k2, v2 in zip(b.keys, b.values):
+                if isinstance(k2, ast.Constant) and k2.value in (
+                        'oneOf', 'anyOf') and isinstance(v2, ast.List):
+                    alts = [norm(x) for x in v2.elts]
+                    if any('DICT' in x for x in alts) and any(
+                            'STRING' in x or 'YAQL' in x or 'EXPRESSION' in x
+                            for x in alts):
+                        union.add(a.value)
+        if not union:
+            continue
+        init = prog.funcs.get(cq + '.__init__')
+        if init is None:
+            continue
+        attr = {}
+        for x in own_nodes(init.node):
+            if isinstance(x, ast.Assign) and len(x.targets) == 1 and \
+                    isinstance(x.targets[0], ast.Attribute) and \
+                    dotted(x.targets[0].value) == 'self' and \
+                    isinstance(x.value, ast.Call) and \
+                    U.call_name(x.value) == 'get' and x.value.args and \
+                    isinstance(x.value.args[0], ast.Constant) and \
+                    x.value.args[0].value in union:
+                attr['self.' + x.targets[0].attr] = x.value.args[0].value
+        n_fields += len(attr)
+        for m in prog.methods_of(cq):
+            for key, prop in attr.items():
+                ops = []
+                for x in own_nodes(m.node):
+                    if isinstance(x, ast.Call) and \
+                            U.call_name(x) == 'merge_dicts' and x.args and \
+                            norm(x.args[0]) == key:
+                        ops.append(x)
+                    if isinstance(x, ast.Call) and \
+                            isinstance(x.func, ast.Attribute) and \
+                            norm(x.func.value) == key and \
+                            x.func.attr in DICT_ONLY_METHODS:
+                        ops.append(x)
+                    if isinstance(x, (ast.Assign, ast.AugAssign, ast.Delete)):
+                        tg = x.targets if not isinstance(x, ast.AugAssign) \
+                            else [x.target]
+                        for t_ in tg:
+                            if isinstance(t_, ast.Subscript) and \
+                                    norm(t_.value) == key:
+                                ops.append(x)
+                if not ops:
+                    continue
+                loc_defs = [k_ for k_ in U._single_defs(m.node)]
+                t = dt.Table(ctx, m, [(key, (FDICT, '<% $.x %>'))],
+                             mutable=(key,) if m.name == '__init__' else ())
+                for op in ops:
+                    n_ops += 1
+                    node = t.cfg.node_of(op) if not isinstance(
+                        op, ast.stmt) else t.cfg.stmt_node(op)
+                    vals = {v[0] for v in t.full_at(node)}
+                    rule.check('<% $.x %>' not in vals,
+                               ctx.construct(m, op, extra='mapping form only'),
+                               "'%s' may be given as an expression (a "
+                               'string), and this mapping-only operation is '
+                               'reached with that form: TypeError / '
+                               'AttributeError instead of a definition error'
+                               % prop, ctx.loc(m, op))
+    if n_fields < 1 or n_ops < 1:
+        raise AnalysisError('C14.R6: no union-typed spec field with a '
+                            'mapping-only operation found (%d fields, %d '
+                            'operations)' % (n_fields, n_ops))
+
+
 def run(ctx):
     prog = ctx.prog
 
@@ -196,6 +295,25 @@ def run(ctx):
                      'raises %s which is not a DSLParsingException with '
                      'http_code 400 (the validation endpoint would answer '
                      'with an internal error)' % d, ctx.loc(f, n))
+            # the message is text: MistralFailuresBase.__str__ returns the
+            # message as it is, so an exception *object* passed as message
+            # makes str(error) itself fail with TypeError (F24)
+            if isinstance(n.exc, ast.Call) and n.exc.args:
+                hn = [h.name for h in ast.walk(f.node)
+                      if isinstance(h, ast.ExceptHandler) and h.name and
+                      any(x is n for x in ast.walk(h))]
+                a0 = n.exc.args[0]
+                raw = (isinstance(a0, ast.Name) and a0.id in hn) or (
+                    isinstance(a0, ast.Call) and
+                    isinstance(a0.func, ast.Name) and
+                    a0.func.id == 'getattr' and len(a0.args) == 3 and
+                    isinstance(a0.args[2], ast.Name) and
+                    a0.args[2].id in hn)
+                r2.check(not raw, ctx.construct(f, n, extra='text message'),
+                         'the caught exception object itself is used as the '
+                         'message of the definition error: str() of the '
+                         'error raises TypeError and the request ends in an '
+                         'internal error', ctx.loc(f, n))
 
     # ---- R3 conversion boundaries ------------------------------------------------
     r3 = ctx.rule('R3', 'library errors are converted at the boundaries; '
@@ -219,6 +337,25 @@ def run(ctx):
     r3.check(ok, ctx.construct(py, extra='YAMLError converted'),
              'YAML syntax errors are not converted to DSLParsingException',
              ctx.loc(py))
+    # the YAML scanner / parser / composer recurse on the nesting of the
+    # document: a few hundred nested flow sequences exhaust the stack (F25)
+    okr = False
+    for t in ast.walk(py.node):
+        if isinstance(t, ast.Try) and any(
+                isinstance(x, ast.Call) and
+                U.call_dotted(x) == 'safe_yaml.load'
+                for b in t.body for x in ast.walk(b)):
+            okr = okr or any(
+                any(z.split('.')[-1] in ('RecursionError', 'RuntimeError',
+                                         'Exception', 'BaseException')
+                    for z in U.handler_types(h)) and
+                any(isinstance(x, ast.Raise) and x.exc is not None and
+                    'DSLParsingException' in norm(x.exc)
+                    for x in ast.walk(h)) for h in t.handlers)
+    r3.check(okr, ctx.construct(py, extra='RecursionError converted'),
+             'a document nested deeply enough to exhaust the interpreter '
+             'stack inside the YAML parser ends in RecursionError (an '
+             'internal error), not in a definition error', ctx.loc(py))
     gv = prog.func(PARSER + '._get_spec_version')
     ok = False
     for t in ast.walk(gv.node):
@@ -431,6 +568,7 @@ def run(ctx):
                          'scalar value' % (elem, elem), ctx.loc(f, u), why)
     if n_loops < 3:
         raise AnalysisError('C14.R6: only %d raw loops found' % n_loops)
+    union_typed_fields(ctx, r6)
     # the workflow's type is forced onto every task (it selects the task
     # spec class): a task-level `type` must not survive
     wsi = prog.func('mistral.lang.v2.workflows.WorkflowSpec.__init__')
